@@ -13,7 +13,9 @@ def encode_timedelta(obj):
 
 def encode_datetime(obj):
     units, _ = np.datetime_data(obj.dtype)
-    reference = obj.reshape(-1)[0] if obj.size else np.datetime64(0, units)
+    # offsets from NaT would all be NaT, so use the first valid element
+    valid = obj[~np.isnat(obj)]
+    reference = valid[0] if valid.size else np.datetime64(0, units)
 
     encoding = {"reference": str(reference), "units": units}
     encoded = (obj - reference).astype("int64").tolist()
